@@ -46,6 +46,8 @@ struct Profile {
     /// per cent of instantiations that are salted / of stored codes that carry their own checksum
     salted: u64,
     own_checksum: u64,
+    /// one block op in `zero_time` sets the block time to 0 (only on chains without validators)
+    zero_time: u64,
 }
 
 fn profile(prop: &str, tier: Tier, rng: &mut Rng) -> Profile {
@@ -83,6 +85,7 @@ fn profile(prop: &str, tier: Tier, rng: &mut Rng) -> Profile {
         empty_kind: 25,
         salted: 35,
         own_checksum: 20,
+        zero_time: 40,
     };
     match prop {
         "C01" => {
@@ -118,6 +121,7 @@ fn profile(prop: &str, tier: Tier, rng: &mut Rng) -> Profile {
         "C05" => {
             p.funds = 70;
             p.w_block = 5;
+            p.zero_time = 8;
             p.queries = 60;
             p.s_migrate = 4;
             p.s_inst = 4;
@@ -169,6 +173,12 @@ fn profile(prop: &str, tier: Tier, rng: &mut Rng) -> Profile {
             p.w_sudo = 4;
             p.s_migrate = 4;
             p.s_inst = 4;
+        }
+        "C19" => {
+            // everything the environment could leak into a run: block updates of all kinds
+            p.w_block = 4;
+            p.zero_time = 5;
+            p.queries = 50;
         }
         "C17" => {
             p.s_module = 16;
@@ -646,7 +656,7 @@ impl<'a> Gen<'a> {
                 let dn = if self.rng.chance(1, 4) { self.rng.range(1, 999_999_999) as u32 } else { 0 };
                 let (dt, dh) = if dn > 0 && self.rng.chance(1, 2) { (0, 0) } else { (dt, self.rng.below(3)) };
                 let chain = if self.rng.chance(1, 8) { Some(self.rng.below(3) as u8) } else { None };
-                Op::Block { set: self.rng.chance(1, 2), dh, dt, abs_h, dn, chain, zero_time: self.rng.chance(1, 40) }
+                Op::Block { set: self.rng.chance(1, 2), dh, dt, abs_h, dn, chain, zero_time: self.rng.chance(1, self.p.zero_time) }
             }
             7 => {
                 let v = if self.rng.chance(1, 5) { None } else { Some(format!("ext{}", self.uniq()).into_bytes()) };
